@@ -43,10 +43,10 @@ theorem runInv (env : Env) : RunInv env (fun s => inv02 s = true) where
     exact Inv02On_congr hs hb hi
 
 /-- `apply_instructions`: any instructions (one per vehicle), accepted or rejected -/
-theorem instructions (env : Env) {w w' : World} {is : List Instr}
-    (hn : (is.map Instr.vehicle).Nodup) (hwf : w.sim.WF) (h : inv02 w.sim = true)
-    (hap : applyInstructions env w is = some w') : inv02 w'.sim = true :=
-  (applyInstructions_inv (runInv env).toStepInv hn hwf h hap).1
+theorem instructions (env : Env) {w : World} {is : List Instr}
+    (hn : (is.map Instr.vehicle).Nodup) (hwf : w.sim.WF) (h : inv02 w.sim = true) :
+    inv02 (applyInstructions env w is).sim = true :=
+  (applyInstructions_inv (runInv env).toStepInv hn hwf h).1
 
 /-- `perform_vehicle_state_updates`: arrivals at full stations, vehicles running out of energy,
     default transitions, charging, queueing — for any oracle answers -/
